@@ -388,6 +388,28 @@ func main() {
 		}
 	}
 
+	// ---- cmd/whawty-auth/policy.go: newZXCVBNPolicy -> Gen/PolicyCond.lean
+	{
+		var w strings.Builder
+		w.WriteString("/- GENERATED by harness/cmd/factgen (translate.go) from /repo's source on every run. Do not edit. -/\n")
+		w.WriteString("import Whawty.Gen.PreludePolicy\nnamespace Whawty.Gen\nopen Whawty\n\n")
+		ty := "Bytes → Bool × Int × Int"
+		if fset, f := parse(filepath.Join(repo, "cmd", "whawty-auth", "policy.go")); f != nil {
+			consts := fileIntConsts(f)
+			// the three condition functions as an enumeration (0 = no function)
+			consts["zxcvbnConditionScore"], consts["zxcvbnConditionEntropy"], consts["zxcvbnConditionTime"] = 1, 2, 3
+			w.WriteString(translateFunc(f, fset, "newZXCVBNPolicy", "newZXCVBNPolicy", ty, consts, nil))
+		} else {
+			w.WriteString("def newZXCVBNPolicy : Option (" + ty + ") := none\n")
+		}
+		w.WriteString("\nend Whawty.Gen\n")
+		o := filepath.Join(filepath.Dir(out), "PolicyCond.lean")
+		old, _ := os.ReadFile(o)
+		if string(old) != w.String() {
+			os.WriteFile(o, []byte(w.String()), 0644)
+		}
+	}
+
 	// ---- store/store.go: checkUserFile -> Gen/CheckFile.lean
 	var cw strings.Builder
 	cw.WriteString("/- GENERATED by harness/cmd/factgen (translate.go) from /repo's source on every run. Do not edit. -/\n")
